@@ -27,7 +27,7 @@ Chk(name, cond, line, detail) == IF cond THEN 0 ELSE Fail(name, line, detail)
 \* ---------------------------------------------------------------- state
 NoSess == [ech |-> -1, pch |-> -1, st |-> "none"]
 NewSess == [ech |-> -1, pch |-> -1,
-            eBegun |-> FALSE, pBegun |-> FALSE, eEnded |-> FALSE, pEnded |-> FALSE, pEndErr |-> "", pEndedBeforeE |-> FALSE, name |-> "",
+            eBegun |-> FALSE, pBegun |-> FALSE, eEnded |-> FALSE, pEnded |-> FALSE, pEndErr |-> "", endTold |-> FALSE, pEndedBeforeE |-> FALSE, name |-> "",
             initOut |-> 0, framesOut |-> 0, delsOut |-> 0, lastDid |-> -1,
             peerNII |-> 0, peerWin |-> 0, devWin |-> 0,          \* window last advertised by the peer / as the code computes it
             pNoi |-> 0, framesInSince |-> 0, pBeginSeen |-> FALSE,
@@ -39,7 +39,7 @@ NewLink == [ech |-> -1, pch |-> -1, eh |-> -1, ph |-> -1, name |-> "", eutSender
             idc |-> 0, dcS |-> 0, limit |-> -1, drainOwed |-> FALSE, echoOwed |-> FALSE, inDel |-> FALSE, curDid |-> -1,
             sendsIssued |-> 0, delsDone |-> 0, blockedBy |-> "none", lastM |-> -1, cancels |-> 0,
             \* receiver role (EUT receives)
-            dcR |-> 0, dcGot |-> 0, lcR |-> 0, limitR |-> 0, limitMax |-> 0, idcP |-> 0, accepted |-> 0, broken |-> FALSE, aborts |-> 0, cfgActive |-> FALSE, creditMode |-> -2, autoAcc |-> FALSE, expectLc |-> -1, held |-> 0, pInDel |-> FALSE,
+            dcR |-> 0, dcGot |-> 0, lcR |-> 0, limitR |-> 0, limitMax |-> 0, idcP |-> 0, accepted |-> 0, broken |-> FALSE, aborts |-> 0, cfgActive |-> FALSE, creditMode |-> -2, autoAcc |-> FALSE, expectLc |-> -1, dispN |-> 1, held |-> 0, pInDel |-> FALSE,
             inq |-> <<>>,          \* incoming deliveries not yet handed to the application
             got |-> <<>>,          \* deliveries handed to the application: [did, m, app (state chosen by the application or "none"), presettled]
             \* settlement
@@ -390,12 +390,12 @@ H_ApiCall(s, r, l) ==
   ELSE IF r.op \in {"send", "send_batchable"} THEN
        LET k == LinkByName(s, r.lname, TRUE) IN
        IF k = 0 THEN R(s, 0) ELSE R(SetL(s, k, [s.ls[k] EXCEPT !.sendsIssued = @ + 1, !.touched = TRUE,
-                                                !.sendq = Append(@, [call |-> r.call, m |-> r.args.m, did |-> -1, presettled |-> FALSE, outcome |-> "none", done |-> FALSE])]), 0)
+                                                !.sendq = Append(@, [call |-> r.call, m |-> r.args.m, did |-> -1, presettled |-> (s.ls[k].snd = 1 \/ (s.ls[k].snd = 2 /\ r.args.settled = "t")), outcome |-> "none", done |-> FALSE])]), 0)
   ELSE IF r.op = "dispose" THEN
        LET k == LinkByName(s, r.lname, FALSE)
            st == CASE r.args.state = "accept" -> "accepted" [] r.args.state = "reject" -> "rejected" [] r.args.state = "release" -> "released" [] OTHER -> "modified" IN
        IF k = 0 THEN R(s, 0)
-       ELSE R(SetL(s, k, [s.ls[k] EXCEPT !.touched = TRUE,
+       ELSE R(SetL(s, k, [s.ls[k] EXCEPT !.touched = TRUE, !.dispN = Max(1, Len(r.args.dids)),
                             !.got = [n \in DOMAIN @ |-> IF \E j \in DOMAIN r.args.dids : r.args.dids[j] = @[n].did THEN [@[n] EXCEPT !.app = st] ELSE @[n]]]), 0)
   ELSE IF r.op = "set_credit" THEN
        LET k == LinkByName(s, r.lname, FALSE) IN
@@ -452,12 +452,14 @@ H_ApiRet(s, r, l) ==
        LET y == s.ls[k] IN
        R(SetL(s, k, [y EXCEPT !.errTold = TRUE]),
            Chk("C13_TeardownWaits", ~r.res.ok \/ y.pDet \/ ~ConnUp(s), l, r.op)
-         + Chk("C13_PeerError", ~(y.pDet /\ y.pDetErr # "" /\ ~y.errTold) \/ (~r.res.ok /\ r.res.cond = y.pDetErr), l, r.op))
+         + Chk("C13_PeerError", ~(y.pDet /\ y.pDetErr # "" /\ ~y.errTold) \/ (~r.res.ok /\ r.res.cond = y.pDetErr) \/ (s.appTeardown /\ ~r.res.ok /\ r.res.says_sess), l, r.op))
   ELSE IF r.op = "end" THEN
        LET i == LastIdx(s.ss, LAMBDA x : x.eBegun /\ x.name = SessName(r.scope)) IN
        IF i = 0 THEN R(s, 0) ELSE
-       R(s, Chk("C13_TeardownWaits", ~r.res.ok \/ s.ss[i].pEnded \/ ~ConnUp(s), l, "end")
-          + Chk("C13_PeerError", ~(s.ss[i].pEnded /\ s.ss[i].pEndErr # "") \/ (~r.res.ok /\ r.res.cond = s.ss[i].pEndErr), l, "end"))
+       \* the peer's error is reported by the first end() that returns after it (a repeated end() is a usage error)
+       R([s EXCEPT !.ss[i].endTold = (@ \/ (s.ss[i].pEnded /\ s.ss[i].pEndErr # "" /\ ~r.res.ok /\ r.res.cond = s.ss[i].pEndErr))],
+            Chk("C13_TeardownWaits", ~r.res.ok \/ s.ss[i].pEnded \/ ~ConnUp(s), l, "end")
+          + Chk("C13_PeerError", ~(s.ss[i].pEnded /\ s.ss[i].pEndErr # "" /\ ~s.ss[i].endTold) \/ (~r.res.ok /\ r.res.cond = s.ss[i].pEndErr), l, "end"))
   ELSE IF r.op = "accept_link" /\ r.res.ok /\ s.badAttachPending THEN R([s EXCEPT !.badAttachPending = FALSE], Fail("C15_IllegalHandled", l, "attach-handle-in-use-accepted"))
   ELSE IF r.op \in {"attach_receiver", "accept_link"} THEN
        LET k == LinkByName(s, r.lname, FALSE) IN
@@ -465,11 +467,11 @@ H_ApiRet(s, r, l) ==
   ELSE IF r.op = "recv" THEN H_RecvRet(s, r, l)
   ELSE IF r.op = "dispose" /\ r.res.ok THEN
        LET k == LinkByName(s, r.lname, FALSE) IN
-       IF k = 0 THEN R(s, 0) ELSE R(SetL(s, k, [s.ls[k] EXCEPT !.held = Max(0, @ - 1)]), 0)
+       IF k = 0 THEN R(s, 0) ELSE R(SetL(s, k, [s.ls[k] EXCEPT !.held = Max(0, @ - s.ls[k].dispN)]), 0)
   ELSE IF r.op \in {"send", "send_batchable", "recv"} /\ ~r.res.ok /\ r.lname # "" /\ PeerDetachedWithError(s, r.lname) > 0 THEN
        LET k == PeerDetachedWithError(s, r.lname) IN
        R(SetL(s, k, [s.ls[k] EXCEPT !.errTold = TRUE, !.sendsIssued = IF @ > s.ls[k].delsDone THEN @ - 1 ELSE @]),
-         Chk("C13_PeerError", r.res.cond = s.ls[k].pDetErr, l, r.op))
+         Chk("C13_PeerError", r.res.cond = s.ls[k].pDetErr \/ (s.appTeardown /\ r.res.says_sess), l, r.op))
   ELSE IF r.op \in {"send", "await_outcome"} /\ r.res.ok THEN
        LET k == LinkByName(s, r.lname, TRUE)
            c == IF r.op = "send" THEN r.call ELSE r.of IN
@@ -508,11 +510,13 @@ FailureClauses(s, r, l) ==
     \* a call on a link whose session the peer has ended must fail
   + Chk("C14_DataPathErr", ~(r.lname # "" /\ SessEndedFor(s, r.lname) /\ r.op \in {"send", "send_batchable", "recv", "dispose"}) \/ ~r.res.ok, l, "after-end")
     \* the error names the scope that stopped ...
-  + Chk("C14_Level", r.res.ok \/ ~(ConnDead(s) /\ s.deadAt > 0 /\ StartedAt(s, r.call) > s.deadAt) \/ r.res.says_conn, l, r.op)
+    \* (after a teardown the application started itself the nearest scope it stopped may be named instead)
+  + Chk("C14_Level", r.res.ok \/ ~(ConnDead(s) /\ s.deadAt > 0 /\ StartedAt(s, r.call) > s.deadAt) \/ r.res.says_conn \/ s.appTeardown, l, r.op)
   + Chk("C14_Level", r.res.ok \/ ConnDead(s) \/ r.lname = "" \/ ~SessEndedFor(s, r.lname) \/ (r.res.says_sess /\ ~r.res.says_conn), l, "session")
     \* ... and carries the peer's condition when one was supplied
-  + Chk("C14_PeerCondition", r.res.ok \/ ~(s.pcloseHeard /\ s.pcloseErr # "" /\ StartedAt(s, r.call) > s.deadAt) \/ r.res.cond = s.pcloseErr, l, r.op)
-  + Chk("C14_PeerCondition", r.res.ok \/ ConnDead(s) \/ r.lname = "" \/ ~SessEndedFor(s, r.lname) \/ SessErrFor(s, r.lname) = "" \/ r.res.cond = SessErrFor(s, r.lname), l, "session")
+    \* (an error that names a nearer scope the application stopped itself need not)
+  + Chk("C14_PeerCondition", r.res.ok \/ ~(s.pcloseHeard /\ s.pcloseErr # "" /\ StartedAt(s, r.call) > s.deadAt) \/ r.res.cond = s.pcloseErr \/ (s.appTeardown /\ ~r.res.says_conn), l, r.op)
+  + Chk("C14_PeerCondition", r.res.ok \/ ConnDead(s) \/ r.lname = "" \/ ~SessEndedFor(s, r.lname) \/ SessErrFor(s, r.lname) = "" \/ r.res.cond = SessErrFor(s, r.lname) \/ s.appTeardown, l, "session")
 
 \* ---------------------------------------------------------------- quiescence: obligations
 H_Quiesce(s, r, l) ==
@@ -538,6 +542,13 @@ H_Quiesce(s, r, l) ==
        + Chk("C08_Drain_Q", \A k \in DOMAIN s.ls : ~(up /\ s.ls[k].eutSender /\ s.ls[k].drainOwed /\ LinkLiveE(s.ls[k]) /\ ~s.ls[k].pDet), l, "")
        + Chk("C02_Echo_Q", \A k \in DOMAIN s.ls : ~(ConnUp(s) /\ s.ls[k].eutSender /\ s.ls[k].oblEcho # {} /\ LinkLiveE(s.ls[k]) /\ ~s.ls[k].pDet
                                                      /\ SessByE(s, s.ls[k].ech) > 0 /\ LiveE(s.ss[SessByE(s, s.ls[k].ech)]) /\ ~s.ss[SessByE(s, s.ls[k].ech)].pEnded), l, "")
+       \* a send whose delivery the peer has settled with a terminal outcome resolves (the disposition reached the link it belongs to)
+       + Chk("C02_Resolves_Q", \A k \in DOMAIN s.ls : ~(ConnUp(s) /\ ~s.hook /\ s.ls[k].eutSender /\ LinkLiveE(s.ls[k]) /\ ~s.ls[k].pDet
+                                                     /\ SessByE(s, s.ls[k].ech) > 0 /\ LiveE(s.ss[SessByE(s, s.ls[k].ech)]) /\ ~s.ss[SessByE(s, s.ls[k].ech)].pEnded
+                                                     /\ \E n \in DOMAIN s.ls[k].sendq : LET q == s.ls[k].sendq[n] IN
+                                                          /\ q.outcome # "none" /\ q.done /\ ~q.presettled
+                                                          /\ \E i \in DOMAIN r.pending : \/ r.pending[i] = q.call
+                                                                                         \/ \E a \in DOMAIN s.callAt : s.callAt[a].call = r.pending[i] /\ s.callAt[a].op = "await_outcome" /\ s.callAt[a].of = q.call), l, "")
        + Chk("C08_Echo_Q", \A k \in DOMAIN s.ls : ~(up /\ s.ls[k].eutSender /\ s.ls[k].echoOwed /\ LinkLiveE(s.ls[k]) /\ ~s.ls[k].pDet), l, "")
        \* local idle time-out: once nothing has arrived for that long (plus the clock granularity) the transport is torn down
        + Chk("C17_LocalTimeoutFires", ~(s.lidle > 0 /\ s.popen /\ s.eopens = 1 /\ s.phdr = "amqp" /\ ~s.garbage /\ r.t - Max(s.lastP, s.openAt) > s.lidle + 2 * s.tol + 2) \/ s.eeof \/ s.ecloses > 0, l, "")
@@ -557,7 +568,8 @@ H_Quiesce(s, r, l) ==
 
 \* no call is left pending on a scope that has stopped
 DeadScope(s, p) == \/ ConnDead(s)
-                   \/ (p.sess # "" /\ \E i \in DOMAIN s.ss : s.ss[i].name = p.sess /\ (s.ss[i].pEnded \/ s.ss[i].eEnded))
+                   \* (a session the application is ending itself has stopped once the peer's end has arrived)
+                   \/ (p.sess # "" /\ \E i \in DOMAIN s.ss : s.ss[i].name = p.sess /\ (s.ss[i].pEnded \/ (s.ss[i].eEnded /\ ~s.appTeardown)))
                    \/ (p.lname # "" /\ \E k \in DOMAIN s.ls : s.ls[k].name = p.lname /\ s.ls[k].eAtt /\ s.ls[k].pDet)
 RECURSIVE PendingFails(_, _, _, _)
 PendingFails(s, ps, i, l) == IF i > Len(ps) THEN 0 ELSE (IF DeadScope(s, ps[i]) THEN Fail("C14_Completes", l, ps[i].op) ELSE 0) + PendingFails(s, ps, i + 1, l)
@@ -576,7 +588,7 @@ Step(s, r, l) ==
       [] r.ev = "PRaw" -> R([s EXCEPT !.garbage = TRUE], 0)
       [] r.ev = "PEof" -> R([s EXCEPT !.peof = TRUE, !.deadAt = IF @ = 0 THEN l ELSE @], 0)
       [] r.ev = "PReset" -> R([s EXCEPT !.peof = TRUE, !.deadAt = IF @ = 0 THEN l ELSE @], 0)
-      [] r.ev = "ApiCall" -> H_ApiCall([s EXCEPT !.callAt = Append(@, [call |-> r.call, line |-> l]), !.appTeardown = (@ \/ r.op \in {"close", "end", "detach", "close_link"})], r, l)
+      [] r.ev = "ApiCall" -> H_ApiCall([s EXCEPT !.callAt = Append(@, [call |-> r.call, line |-> l, op |-> r.op, of |-> r.of]), !.appTeardown = (@ \/ r.op \in {"close", "end", "detach", "close_link"})], r, l)
       [] r.ev = "ApiDrop" -> R([s EXCEPT !.appTeardown = TRUE], 0)
       [] r.ev = "ApiRet" -> LET h == H_ApiRet(s, r, l) IN R(h.s, h.f + FailureClauses(s, r, l))
       [] r.ev = "Quiesce" -> H_Quiesce(s, r, l)
